@@ -13,15 +13,15 @@ def run(ctx):
     ks = [(3, 1)] if ctx.tier == 'quick' else [(3, 1), (4, 1), (4, 2)]
     for k, loss in ks:
         w = k * (loss + 1) + 1
-        ctx.add(Harness('C20_gap_k%d_l%d' % (k, loss), VERIF + '/harness/C20_gap.c', defines=defs + ['K=%d' % k, 'MAXLOSS=%d' % loss, 'VF_MAXCOPY=16', 'VF_OUTMAX=%d' % (k + 1)], unwind=4,
-                        unwindset=sessin.US + ['raw_seq.0:8', 'main.0:%d' % (k + 1), 'main.1:%d' % (w + 1), 'main.2:%d' % (loss + 1), 'main.3:8', 'main.4:%d' % (k + 3), 'main.5:%d' % (w + 1)],
+        ctx.add(Harness('C20_gap_k%d_l%d' % (k, loss), VERIF + '/harness/C20_gap.c', defines=defs + ['K=%d' % k, 'MAXLOSS=%d' % loss, 'VF_MAXCOPY=40', 'VF_OUTMAX=%d' % (k + 1)], unwind=12,
+                        unwindset=sessin.US,
                         timeout=900 if ctx.tier == 'quick' else 2400, functions=FUN, stubs=sessin.STUBS,
                         bounds='%d process() steps from a continuous session in sync at an arbitrary number n in 1..999999; at most %d own messages lost before each new message; '
                                'lost and new messages are application or administrative at the generator\'s choice' % (k, loss),
                         desc='k-step recovery against the conformant counterparty generator'))
     for role, rn in ((0, 'acceptor'), (1, 'initiator')):
-        ctx.add(Harness('C20_logon_%s' % rn, VERIF + '/harness/C20_logon.c', defines=defs + ['ROLE=%d' % role, 'VF_MAXCOPY=16'], unwind=4,
-                        unwindset=sessin.US + ['raw_seq.0:8', 'main.0:8', 'main.1:6'], timeout=900, functions=FUN, stubs=sessin.STUBS + ['Timer::schedule := recorded'],
+        ctx.add(Harness('C20_logon_%s' % rn, VERIF + '/harness/C20_logon.c', defines=defs + ['ROLE=%d' % role, 'VF_MAXCOPY=40'], unwind=12,
+                        unwindset=sessin.US, timeout=900, functions=FUN, stubs=sessin.STUBS + ['Timer::schedule := recorded'],
                         bounds='one Logon with matching CompIDs numbered expected+g, g in 0..1000, expected in 1..999999, %s role' % rn, desc='reconnect Logon above the expected number'))
     ctx.solve(jobs=4)
     ctx.handle_failures(replay, kf)
